@@ -84,7 +84,13 @@ def evaluate(case):
         base = run_textx(mm, text)
         ctx0 = f"grammar={gtext!r} cfg={cfg} input={text!r}"
         if base[0] != "ok":
-            out.add("original/rejected", ctx0 + f": {base[1]}")
+            sfx0 = ""
+            if g.get("comment"):
+                # recorded finding F-C01d (comment positions cached across whitespace modes): accepted without the cache?
+                with engine.no_comment_cache():
+                    if run_textx(mm, text)[0] == "ok":
+                        sfx0 = "/engine:comment_cache"
+            out.add("original/rejected" + sfx0, ctx0 + f": {base[1]}")
             continue
         df = c01.ref_diff(g, cfg, text, base[1], res[1])
         if df:
